@@ -1,4 +1,4 @@
-//! C13: the real `EventTimeWindowManager`.
+//! C13 (and C06): the real `EventTimeWindowManager` (after the fixes of F2/F3 in /repo).
 //!
 //! mode `mgr`: one manager (public API: `EventTimeWindow::sliding/tumbling(..).build(acc)` +
 //!   `WindowManager::process`) driven element by element with a collecting accumulator;
